@@ -165,7 +165,7 @@ CHECKS = {
              "the primitives' internal Bernoulli sampler replaced by an oracle that exhaustively explores every internal outcome (weights = the "
              "probabilities actually used): weighted mean of value and tangent vs closed forms; per-outcome duals vs the Lean model; seeded "
              "Monte-Carlo for programs whose continuations sample on their own; categorical/parallel enumeration, batched sites, pathwise identity; multi-site programs written ONCE and run both as genjax functions (every internal draw answered by an exhaustive oracle) and as terms of the Lean program model: the full distribution of (probability, value, tangent) outcomes and its mean are compared; sites inside nested jax.jit / jax.checkpoint helpers (a repaired defect: they lost their estimator semantics and ignored the key) vs the same program without the nested call under the same key and vs closed forms.",
-        note=TB + "C11: reparameterised primitives = JAX's pathwise JVP (trusted); continuous score-function sites are checked by calibrated means only; open finding adev-site-in-cond-branch (a site inside a cond branch followed by a non-linear computation is biased) - the model's outcome-tree programs put the whole rest of the program under each outcome, which is what the property demands; open finding adev-site-in-uninterpreted-call (sites in scan / while_loop bodies and custom_jvp functions are sampled once instead of estimated); the model has no call construct (a nested call is the program it wraps).",
+        note=TB + "C11: reparameterised primitives = JAX's pathwise JVP (trusted); continuous score-function sites are checked by calibrated means only; a site inside a cond branch followed by a non-linear computation was biased until fix b0f97e1 (Lean witness C11_asis_cond_branch_cex; now checked with exact values and gradients) - the model's outcome-tree programs put the whole rest of the program under each outcome, which is what the property demands; open finding adev-site-in-uninterpreted-call (sites in scan / while_loop bodies and custom_jvp functions are sampled once instead of estimated); the model has no call construct (a nested call is the program it wraps).",
         technique="Lean 4 + Mathlib proof + differential correspondence with exhaustive enumeration of the estimators' internal randomness",
         design="§3 C11"),
     "C15": dict(
